@@ -1,0 +1,221 @@
+//go:build verif
+
+package core
+
+// Contracts for three-way reconciliation (properties C02, C01, C06, C03).
+// Comment-only file: compiled only under the "verif" build tag, contains no
+// code. The "//@" lines are read by /verif/govc.
+//
+// Vocabulary. Entries and changes are immutable plan objects (declared in
+// zz_contracts_verif.go). Four notions of the algorithm are abstracted by
+// uninterpreted functions of the (immutable) entries they are computed from;
+// the clauses labelled [abs] that tie the real functions to them are the
+// trusted determinism assumptions, everything else is proved on the bodies:
+//
+//   eqv(a, b, deep)  the value of a.Equal(b, deep)
+//   syn(e)           e.synchronizable(): the synchronizable sub-tree of e
+//   dlen(b, t)       len(diff(_, b, t)): number of changes turning b into t
+//   delonly(b, t)    every one of them is a deletion (New == nil)
+//
+// so that, for an endpoint entry x and the ancestor a,
+//   dlen(a, syn(x)) == 0   x's tracked content is unchanged since the last synchronization
+//   delonly(a, syn(x))     x's tracked content was at most deleted (nothing created or modified)
+//   dlen(syn(x), x) == 0   x contains no untracked / unsupported / problematic content
+
+//@ ufunc eqv(a *Entry, b *Entry, deep bool) bool
+//@ ufunc syn(e *Entry) *Entry
+//@ ufunc dlen(b *Entry, t *Entry) int
+//@ ufunc delonly(b *Entry, t *Entry) bool
+
+//@ immutable Conflict
+
+//@ pred oneWay(m) = m == SynchronizationMode_SynchronizationModeOneWaySafe || m == SynchronizationMode_SynchronizationModeOneWayReplica
+//@ pred syncKind(k) = k == EntryKind_Directory || k == EntryKind_File || k == EntryKind_SymbolicLink
+
+//@ pred allDeletions(cs) = forall k in 0..len(cs) :: cs[k].New == nil
+
+// ------------------------------------------------------------ building blocks
+
+//@ func (*Entry).Equal
+//@   pure
+//@   ensures[abs] result == eqv(e, other, deep)
+//@   ensures[ptr] e == other ==> result
+//@   ensures[nil] e != other && (e == nil || other == nil) ==> !result
+//@   ensures[props] result && e != other ==> e.Kind == other.Kind && e.Executable == other.Executable && e.Target == other.Target
+
+//@ func (*Entry).synchronizable
+//@   modifies
+//@   ensures[abs] result == syn(e)
+//@   ensures[none] (e == nil || !syncKind(e.Kind)) ==> result == nil
+//@   ensures[keep] e != nil && syncKind(e.Kind) ==> result != nil && result.Kind == e.Kind && result.Executable == e.Executable && result.Target == e.Target
+//@   ensures[self] e != nil && syncKind(e.Kind) && (e.Kind != EntryKind_Directory || len(e.Contents) == 0) ==> result == e
+//@   ensures[clean] result != nil && result != e ==> fresh(result) && result.Problem == ""
+
+//@ func extractNonDeletionChanges
+//@   requires forall k in 0..len(changes) :: changes[k] != nil
+//@   modifies
+//@   ensures[count] len(filtered) == 0 <==> allDeletions(changes)
+//@   ensures[count] len(filtered) <= len(changes)
+//@   ensures[nondel] forall k in 0..len(filtered) :: filtered[k] != nil && filtered[k].New != nil
+//@   loop 1 invariant rangeindex < len(changes)
+//@   loop 1 invariant[count] len(filtered) == 0 <==> (forall k in 0..rangeindex+1 :: changes[k].New == nil)
+//@   loop 1 invariant[count] len(filtered) <= rangeindex + 1
+//@   loop 1 invariant[nondel] forall k in 0..len(filtered) :: filtered[k] != nil && filtered[k].New != nil
+//@   loop 1 invariant base(filtered) == 0 || fresh(filtered)
+
+//@ func nameUnion
+//@   modifies
+//@   fresh result
+//@   loop 1 modifies result[*]
+//@   loop 2 modifies result[*]
+
+// The recursive differ: appends to d.changes only; every change it emits is
+// a real shallow disagreement between the two entries it names; a shallow
+// disagreement at the root yields exactly the replacement of base by target.
+//@ func (*differ).diff
+//@   requires d != nil
+//@   modifies d.changes, d.changes[*]
+//@   ensures[grow] len(d.changes) >= old(len(d.changes)) && (base(d.changes) == old(base(d.changes)) || fresh(d.changes))
+//@   ensures[prefix] forall k in 0..old(len(d.changes)) :: d.changes[k] == old(d.changes[k])
+//@   ensures[nonnil] forall k in old(len(d.changes))..len(d.changes) :: d.changes[k] != nil
+//@   ensures[real] forall k in old(len(d.changes))..len(d.changes) :: !eqv(d.changes[k].New, d.changes[k].Old, false)
+//@   ensures[root] !eqv(target, base, false) ==> len(d.changes) == old(len(d.changes)) + 1 && d.changes[old(len(d.changes))].Path == path && d.changes[old(len(d.changes))].Old == base && d.changes[old(len(d.changes))].New == target
+//@   loop 1 modifies d.changes, d.changes[*]
+//@   loop 1 invariant[grow] len(d.changes) >= old(len(d.changes)) && (base(d.changes) == pre(base(d.changes)) || loopfresh(d.changes))
+//@   loop 1 invariant[prefix] forall k in 0..old(len(d.changes)) :: d.changes[k] == old(d.changes[k])
+//@   loop 1 invariant[nonnil] forall k in old(len(d.changes))..len(d.changes) :: d.changes[k] != nil
+//@   loop 1 invariant[real] forall k in old(len(d.changes))..len(d.changes) :: !eqv(d.changes[k].New, d.changes[k].Old, false)
+
+//@ func diff
+//@   modifies
+//@   fresh result
+//@   ensures[abs] len(result) == dlen(base, target) && (delonly(base, target) <==> allDeletions(result))
+//@   ensures[nonnil] forall k in 0..len(result) :: result[k] != nil
+//@   ensures[real] forall k in 0..len(result) :: !eqv(result[k].New, result[k].Old, false)
+//@   ensures[root] !eqv(target, base, false) ==> len(result) == 1 && result[0].Path == path && result[0].Old == base && result[0].New == target
+//@   ensures[same] len(result) == 0 ==> eqv(target, base, false)
+
+// ------------------------------------------------------------------ handlers
+// The reconciler's three plan lists only ever grow by appending. A handler
+// is called for one path at which alpha and beta disagree and schedules at
+// most one action there: one alpha change, or one beta change, or one
+// conflict.
+
+// Representation invariant: the three change lists do not share storage.
+//@ pred sep(r) = (base(r.alphaChanges) == 0 || (base(r.alphaChanges) != base(r.betaChanges) && base(r.alphaChanges) != base(r.ancestorChanges))) && (base(r.betaChanges) == 0 || base(r.betaChanges) != base(r.ancestorChanges))
+
+//@ pred twoWaySafe(m) = m == SynchronizationMode_SynchronizationModeTwoWaySafe
+//@ pred isChange(c, p, o, n) = c != nil && c.Path == p && c.Old == o && c.New == n
+//@ pred nonNilChanges(cs) = forall k in 0..len(cs) :: cs[k] != nil
+
+// tracked content of x unchanged since the ancestor / at most deleted / x holds no untracked content
+//@ pred unchanged(a, x) = dlen(a, syn(x)) == 0
+//@ pred deletedOnly(a, x) = delonly(a, syn(x))
+//@ pred noUntracked(x) = dlen(syn(x), x) == 0
+
+//@ func (*reconciler).handleDisagreementBidirectional
+//@   requires r != nil && sep(r)
+//@   ensures[sep] sep(r)
+//@   ensures[mode] r.mode == old(r.mode)
+//@   ensures[one] len(r.alphaChanges) >= old(len(r.alphaChanges)) && len(r.betaChanges) >= old(len(r.betaChanges)) && len(r.conflicts) >= old(len(r.conflicts))
+//@   ensures[one] (len(r.alphaChanges) - old(len(r.alphaChanges))) + (len(r.betaChanges) - old(len(r.betaChanges))) + (len(r.conflicts) - old(len(r.conflicts))) == 1
+//@   ensures[one] len(r.ancestorChanges) == old(len(r.ancestorChanges))
+//@   ensures[prefix] forall k in 0..old(len(r.alphaChanges)) :: r.alphaChanges[k] == old(r.alphaChanges[k])
+//@   ensures[prefix] forall k in 0..old(len(r.betaChanges)) :: r.betaChanges[k] == old(r.betaChanges[k])
+//@   ensures[prefix] forall k in 0..old(len(r.conflicts)) :: r.conflicts[k] == old(r.conflicts[k])
+//@   ensures[alphasafe] len(r.alphaChanges) > old(len(r.alphaChanges)) ==> r.alphaChanges[old(len(r.alphaChanges))] != nil && r.alphaChanges[old(len(r.alphaChanges))].Path == path && (r.alphaChanges[old(len(r.alphaChanges))].New == syn(beta) || r.alphaChanges[old(len(r.alphaChanges))].New == nil)
+//@   ensures[alphasafe] len(r.alphaChanges) > old(len(r.alphaChanges)) ==> noUntracked(alpha) && ((r.alphaChanges[old(len(r.alphaChanges))].Old == ancestor && unchanged(ancestor, alpha)) || (r.alphaChanges[old(len(r.alphaChanges))].Old == syn(alpha) && deletedOnly(ancestor, alpha)))
+//@   ensures[betasafe] len(r.betaChanges) > old(len(r.betaChanges)) ==> r.betaChanges[old(len(r.betaChanges))] != nil && r.betaChanges[old(len(r.betaChanges))].Path == path && (r.betaChanges[old(len(r.betaChanges))].New == syn(alpha) || r.betaChanges[old(len(r.betaChanges))].New == nil)
+//@   ensures[betasafe] len(r.betaChanges) > old(len(r.betaChanges)) ==> noUntracked(beta) && ((r.betaChanges[old(len(r.betaChanges))].Old == ancestor && unchanged(ancestor, beta)) || (r.betaChanges[old(len(r.betaChanges))].Old == syn(beta) && (deletedOnly(ancestor, beta) || !twoWaySafe(r.mode))))
+//@   ensures[rooted] len(r.alphaChanges) > old(len(r.alphaChanges)) ==> r.alphaChanges[old(len(r.alphaChanges))] != nil && r.alphaChanges[old(len(r.alphaChanges))].Path == path
+//@   ensures[rooted] len(r.betaChanges) > old(len(r.betaChanges)) ==> r.betaChanges[old(len(r.betaChanges))] != nil && r.betaChanges[old(len(r.betaChanges))].Path == path
+//@   ensures[rooted] len(r.conflicts) > old(len(r.conflicts)) ==> r.conflicts[old(len(r.conflicts))] != nil && r.conflicts[old(len(r.conflicts))].Root == path
+//@   ensures[blocked] !noUntracked(alpha) ==> len(r.alphaChanges) == old(len(r.alphaChanges))
+//@   ensures[blocked] !noUntracked(beta) ==> len(r.betaChanges) == old(len(r.betaChanges))
+//@   ensures[bothmod] twoWaySafe(r.mode) && !deletedOnly(ancestor, alpha) && !deletedOnly(ancestor, beta) ==> len(r.conflicts) == old(len(r.conflicts)) + 1
+//@   ensures[conflictwf] len(r.conflicts) > old(len(r.conflicts)) ==> r.conflicts[old(len(r.conflicts))] != nil && r.conflicts[old(len(r.conflicts))].Root == path && len(r.conflicts[old(len(r.conflicts))].BetaChanges) > 0 && (len(r.conflicts[old(len(r.conflicts))].AlphaChanges) > 0 || (unchanged(ancestor, alpha) && unchanged(ancestor, beta) && !noUntracked(beta)))
+//@   ensures[cnonnil] len(r.conflicts) > old(len(r.conflicts)) ==> forall k in 0..len(r.conflicts[old(len(r.conflicts))].AlphaChanges) :: r.conflicts[old(len(r.conflicts))].AlphaChanges[k] != nil
+//@   ensures[cnonnil] len(r.conflicts) > old(len(r.conflicts)) ==> forall k in 0..len(r.conflicts[old(len(r.conflicts))].BetaChanges) :: r.conflicts[old(len(r.conflicts))].BetaChanges[k] != nil
+
+//@ func (*reconciler).handleDisagreementOneWaySafe
+//@   requires r != nil && sep(r)
+//@   ensures[sep] sep(r)
+//@   ensures[mode] r.mode == old(r.mode)
+//@   ensures[oneway] len(r.alphaChanges) == old(len(r.alphaChanges))
+//@   ensures[one] len(r.betaChanges) >= old(len(r.betaChanges)) && len(r.conflicts) >= old(len(r.conflicts))
+//@   ensures[one] (len(r.betaChanges) - old(len(r.betaChanges))) + (len(r.conflicts) - old(len(r.conflicts))) <= 1
+//@   ensures[prefix] forall k in 0..old(len(r.betaChanges)) :: r.betaChanges[k] == old(r.betaChanges[k])
+//@   ensures[prefix] forall k in 0..old(len(r.conflicts)) :: r.conflicts[k] == old(r.conflicts[k])
+//@   ensures[betasafe] len(r.betaChanges) > old(len(r.betaChanges)) ==> isChange(r.betaChanges[old(len(r.betaChanges))], path, beta, syn(alpha)) && deletedOnly(ancestor, beta) && noUntracked(beta)
+//@   ensures[rooted] len(r.betaChanges) > old(len(r.betaChanges)) ==> r.betaChanges[old(len(r.betaChanges))] != nil && r.betaChanges[old(len(r.betaChanges))].Path == path
+//@   ensures[rooted] len(r.conflicts) > old(len(r.conflicts)) ==> r.conflicts[old(len(r.conflicts))] != nil && r.conflicts[old(len(r.conflicts))].Root == path
+//@   ensures[blocked] !noUntracked(beta) || !deletedOnly(ancestor, beta) ==> len(r.betaChanges) == old(len(r.betaChanges))
+//@   ensures[conflictwf] len(r.conflicts) > old(len(r.conflicts)) ==> r.conflicts[old(len(r.conflicts))] != nil && r.conflicts[old(len(r.conflicts))].Root == path && len(r.conflicts[old(len(r.conflicts))].BetaChanges) > 0 && len(r.conflicts[old(len(r.conflicts))].AlphaChanges) == 1 && isChange(r.conflicts[old(len(r.conflicts))].AlphaChanges[0], path, ancestor, alpha)
+//@   ensures[cnonnil] len(r.conflicts) > old(len(r.conflicts)) ==> forall k in 0..len(r.conflicts[old(len(r.conflicts))].BetaChanges) :: r.conflicts[old(len(r.conflicts))].BetaChanges[k] != nil
+
+//@ func (*reconciler).handleDisagreementOneWayReplica
+//@   requires r != nil && sep(r)
+//@   ensures[sep] sep(r)
+//@   ensures[mode] r.mode == old(r.mode)
+//@   ensures[oneway] len(r.alphaChanges) == old(len(r.alphaChanges))
+//@   ensures[one] len(r.betaChanges) >= old(len(r.betaChanges)) && len(r.conflicts) >= old(len(r.conflicts))
+//@   ensures[one] (len(r.betaChanges) - old(len(r.betaChanges))) + (len(r.conflicts) - old(len(r.conflicts))) == 1
+//@   ensures[one] len(r.ancestorChanges) == old(len(r.ancestorChanges))
+//@   ensures[prefix] forall k in 0..old(len(r.betaChanges)) :: r.betaChanges[k] == old(r.betaChanges[k])
+//@   ensures[prefix] forall k in 0..old(len(r.conflicts)) :: r.conflicts[k] == old(r.conflicts[k])
+//@   ensures[betasafe] len(r.betaChanges) > old(len(r.betaChanges)) ==> isChange(r.betaChanges[old(len(r.betaChanges))], path, beta, syn(alpha)) && noUntracked(beta)
+//@   ensures[rooted] len(r.betaChanges) > old(len(r.betaChanges)) ==> r.betaChanges[old(len(r.betaChanges))] != nil && r.betaChanges[old(len(r.betaChanges))].Path == path
+//@   ensures[rooted] len(r.conflicts) > old(len(r.conflicts)) ==> r.conflicts[old(len(r.conflicts))] != nil && r.conflicts[old(len(r.conflicts))].Root == path
+//@   ensures[blocked] !noUntracked(beta) ==> len(r.betaChanges) == old(len(r.betaChanges)) && len(r.conflicts) == old(len(r.conflicts)) + 1
+//@   ensures[conflictwf] len(r.conflicts) > old(len(r.conflicts)) ==> r.conflicts[old(len(r.conflicts))] != nil && r.conflicts[old(len(r.conflicts))].Root == path && len(r.conflicts[old(len(r.conflicts))].BetaChanges) > 0 && len(r.conflicts[old(len(r.conflicts))].AlphaChanges) == 1 && isChange(r.conflicts[old(len(r.conflicts))].AlphaChanges[0], path, ancestor, alpha)
+//@   ensures[cnonnil] len(r.conflicts) > old(len(r.conflicts)) ==> forall k in 0..len(r.conflicts[old(len(r.conflicts))].BetaChanges) :: r.conflicts[old(len(r.conflicts))].BetaChanges[k] != nil
+
+// ---------------------------------------------------------------- recursion
+// reconcile visits a path, skips it when either side is problematic, appends
+// nothing itself when the sides agree (only its recursive calls do), and
+// otherwise hands the path to exactly one handler.
+
+//@ pred problematic(e) = e != nil && e.Kind == EntryKind_Problematic
+
+//@ func (*reconciler).reconcile
+//@   requires r != nil && sep(r)
+//@   ensures[sep] sep(r)
+//@   ensures[mode] r.mode == old(r.mode)
+//@   ensures[oneway] oneWay(old(r.mode)) ==> len(r.alphaChanges) == old(len(r.alphaChanges))
+//@   ensures[grow] len(r.alphaChanges) >= old(len(r.alphaChanges)) && len(r.betaChanges) >= old(len(r.betaChanges)) && len(r.conflicts) >= old(len(r.conflicts))
+//@   ensures[prefix] forall k in 0..old(len(r.alphaChanges)) :: r.alphaChanges[k] == old(r.alphaChanges[k])
+//@   ensures[prefix] forall k in 0..old(len(r.betaChanges)) :: r.betaChanges[k] == old(r.betaChanges[k])
+//@   ensures[prefix] forall k in 0..old(len(r.conflicts)) :: r.conflicts[k] == old(r.conflicts[k])
+//@   ensures[skip] problematic(alpha) || problematic(beta) ==> len(r.alphaChanges) == old(len(r.alphaChanges)) && len(r.betaChanges) == old(len(r.betaChanges)) && len(r.conflicts) == old(len(r.conflicts)) && len(r.ancestorChanges) == old(len(r.ancestorChanges))
+//@   ensures[leaf] !eqv(alpha, beta, false) ==> (len(r.alphaChanges) - old(len(r.alphaChanges))) + (len(r.betaChanges) - old(len(r.betaChanges))) + (len(r.conflicts) - old(len(r.conflicts))) <= 1
+//@   ensures[nonnil] forall k in old(len(r.alphaChanges))..len(r.alphaChanges) :: r.alphaChanges[k] != nil
+//@   ensures[nonnil] forall k in old(len(r.betaChanges))..len(r.betaChanges) :: r.betaChanges[k] != nil
+//@   ensures[cwf] forall k in old(len(r.conflicts))..len(r.conflicts) :: r.conflicts[k] != nil && len(r.conflicts[k].BetaChanges) > 0
+//@   at call handleDisagreementBidirectional assert[route] (r.mode == SynchronizationMode_SynchronizationModeTwoWaySafe || r.mode == SynchronizationMode_SynchronizationModeTwoWayResolved) && arg1 == path && arg2 == ancestor && arg3 == alpha && arg4 == beta
+//@   at call handleDisagreementOneWaySafe assert[route] r.mode == SynchronizationMode_SynchronizationModeOneWaySafe && arg1 == path && arg2 == ancestor && arg3 == alpha && arg4 == beta
+//@   at call handleDisagreementOneWayReplica assert[route] r.mode == SynchronizationMode_SynchronizationModeOneWayReplica && arg1 == path && arg2 == ancestor && arg3 == alpha && arg4 == beta
+//@   at call handleDisagreementBidirectional assert[route] len(r.alphaChanges) == old(len(r.alphaChanges)) && len(r.betaChanges) == old(len(r.betaChanges)) && len(r.conflicts) == old(len(r.conflicts))
+//@   at call handleDisagreementOneWaySafe assert[route] len(r.alphaChanges) == old(len(r.alphaChanges)) && len(r.betaChanges) == old(len(r.betaChanges)) && len(r.conflicts) == old(len(r.conflicts))
+//@   at call handleDisagreementOneWayReplica assert[route] len(r.alphaChanges) == old(len(r.alphaChanges)) && len(r.betaChanges) == old(len(r.betaChanges)) && len(r.conflicts) == old(len(r.conflicts))
+//@   at call (*reconciler).reconcile assert[children] alpha != nil && beta != nil
+//@   at call nameUnion assert[children] alpha != nil && beta != nil && alphaContents == alpha.Contents && betaContents == beta.Contents && (ancestorContents == nil || (ancestor != nil && ancestorContents == ancestor.Contents))
+//@   at call (*reconciler).reconcile assert[children] arg3 == ((alphaContents != nil && has(alphaContents, name)) ? alphaContents[name] : nil)
+//@   at call (*reconciler).reconcile assert[children] arg4 == ((betaContents != nil && has(betaContents, name)) ? betaContents[name] : nil)
+//@   at call (*reconciler).reconcile assert[children] arg2 == ((ancestorContents != nil && has(ancestorContents, name)) ? ancestorContents[name] : nil)
+//@   at call nameUnion assert[local] len(r.alphaChanges) == old(len(r.alphaChanges)) && len(r.betaChanges) == old(len(r.betaChanges)) && len(r.conflicts) == old(len(r.conflicts))
+//@   loop 1 invariant[mode] r.mode == old(r.mode)
+//@   loop 1 invariant[sep] sep(r)
+//@   loop 1 invariant[oneway] oneWay(old(r.mode)) ==> len(r.alphaChanges) == old(len(r.alphaChanges))
+//@   loop 1 invariant[grow] len(r.alphaChanges) >= old(len(r.alphaChanges)) && len(r.betaChanges) >= old(len(r.betaChanges)) && len(r.conflicts) >= old(len(r.conflicts))
+//@   loop 1 invariant[prefix] forall k in 0..old(len(r.alphaChanges)) :: r.alphaChanges[k] == old(r.alphaChanges[k])
+//@   loop 1 invariant[prefix] forall k in 0..old(len(r.betaChanges)) :: r.betaChanges[k] == old(r.betaChanges[k])
+//@   loop 1 invariant[prefix] forall k in 0..old(len(r.conflicts)) :: r.conflicts[k] == old(r.conflicts[k])
+//@   loop 1 invariant[nonnil] forall k in old(len(r.alphaChanges))..len(r.alphaChanges) :: r.alphaChanges[k] != nil
+//@   loop 1 invariant[nonnil] forall k in old(len(r.betaChanges))..len(r.betaChanges) :: r.betaChanges[k] != nil
+//@   loop 1 invariant[cwf] forall k in old(len(r.conflicts))..len(r.conflicts) :: r.conflicts[k] != nil && len(r.conflicts[k].BetaChanges) > 0
+
+//@ func Reconcile
+//@   ensures[oneway] oneWay(mode) ==> len(result1) == 0
+//@   ensures[skip] problematic(alpha) || problematic(beta) ==> len(result0) == 0 && len(result1) == 0 && len(result2) == 0 && len(result3) == 0
+//@   ensures[nonnil] nonNilChanges(result1) && nonNilChanges(result2)
+//@   ensures[cwf] forall k in 0..len(result3) :: result3[k] != nil && len(result3[k].BetaChanges) > 0
